@@ -4,7 +4,7 @@ From Coq Require Import ZArith Reals List Bool Sorted.
 From PW Require Import Num NumR Vec NpList Result.
 From PW.model Require Import M_slicing.
 From Coq Require Import Permutation.
-From PW.proofs Require Import P_slicing P_slicing_face P_slicing_cover P_slicing_compl P_slicing_mesh P_slicing_perface P_slicing_idem.
+From PW.proofs Require Import P_slicing P_slicing_face P_slicing_cover P_slicing_compl P_slicing_mesh P_slicing_perface P_slicing_idem P_slicing_z.
 Import ListNotations.
 
 (* renumbering by bin counting: unique is the strictly increasing list of the values that occur, and
@@ -100,6 +100,20 @@ Theorem C02_kept_fractions_complement : forall tol ds, (0 <= tol)%R -> snapped3 
   (~ all_zero ds -> kept_frac tol ds + kept_frac tol (negd ds) = 1)%R.
 Proof. exact frac_complement. Qed.
 
+(* face arrays with NumPy wrap-around entries: without negative entries (all in range) the wrapping layer is the model
+   proper, so every theorem above applies to it *)
+Theorem C02_wrapping_layer_is_model_on_nonnegative_faces : forall tol eps vs fsz n o fi,
+  vs <> [] -> (forall f, In f fsz -> zface_in_range (length vs) f) ->
+  slice_faces_plane_z ROps tol eps vs fsz n o fi = slice_faces_plane ROps tol eps vs (map zface_to_nat fsz) n o fi.
+Proof. exact slice_z_nonneg. Qed.
+(* REFUTED (known finding negative_index_survives): "whatever the input ... the arrays returned form a valid mesh" fails for a
+   face array with wrapping entries that all index the vertices: a kept face carries its negative entries into np.bincount *)
+Theorem C02_negative_index_survives_refuted :
+  exists tol eps vs fsz n o,
+    (forall f, In f fsz -> forall k, (- Z.of_nat (length vs) <= zget f k < Z.of_nat (length vs))%Z) /\
+    slice_faces_plane_z ROps tol eps vs fsz n o None = Raise ValueError.
+Proof. exact negative_index_survives. Qed.
+
 (* non-vacuity of the wholly-behind clause *)
 Example C02_all_behind_inhabited :
   (forall v, In v [V3 0 0 (-1); V3 1 0 (-2); V3 0 1 (-3)] -> (plane_dot ROps (V3 0 0 1) (V3 0 0 0) v < - (1/100000000))%R)%R
@@ -111,5 +125,6 @@ Qed.
 
 Definition C02_all := (C02_unique_bincount_spec, C02_unique_bincount_onto, C02_slice_mapping_len, C02_slice_empty,
   C02_slice_indices_valid_no_orphans, C02_renumber_keeps_coordinates, C02_slice_provenance, C02_slice_perm_relabel_invariant,
-  C02_slice_idempotent, C02_slice_idempotent_per_face, C02_slice_complement, C02_kept_fractions_complement).
+  C02_slice_idempotent, C02_slice_idempotent_per_face, C02_slice_complement, C02_kept_fractions_complement,
+  C02_wrapping_layer_is_model_on_nonnegative_faces, C02_negative_index_survives_refuted).
 Print Assumptions C02_all.
